@@ -89,6 +89,7 @@ type flabCHSpec struct {
 	SID    int    `json:"sid,omitempty"`
 	NCS    int    `json:"ncs,omitempty"`
 	Parts  []int  `json:"parts,omitempty"` // sizes of the Write calls (the rest goes into a last one)
+	Len2   int    `json:"len2,omitempty"`  // >0: the peer answers with a HelloRetryRequest and the TLS stack writes a second ClientHello of about this length
 }
 
 type flabSpec struct {
@@ -587,6 +588,9 @@ func flabGen(seed uint64, tier string) KScenario {
 			ch.Parts = append(ch.Parts, r.Range(1, max(1, L/2)))
 		}
 	}
+	if L > 0 && r.P(0.15) {
+		ch.Len2 = r.Pick(r.Range(1, 300), r.Range(100, capacity), r.Range(capacity, 2*capacity))
+	}
 	L = len(flabBuildCH(ch)) // the structured form may be longer than the target
 
 	// ---- framing specification
@@ -622,7 +626,7 @@ func flabGen(seed uint64, tier string) KScenario {
 		}
 		if nfix > 0 {
 			plansOK = false
-			if sc.Lossy || L+ovh > capacity || F > L {
+			if sc.Lossy || L+ovh > capacity || F > L || ch.Len2 > 0 {
 				// some slice (a later datagram's remainder, a retransmitted piece) can be
 				// shorter than the fixed part of the layout
 				sc.Class = "qf-short-slice"
@@ -674,6 +678,7 @@ func flabGen(seed uint64, tier string) KScenario {
 				ch.SNI, ch.ECH = -1, -1
 				L = ch.Len
 			}
+			ch.Len2 = 0
 		}
 		if sc.Class == "valid" && r.P(0.08) {
 			sp.RF = flabBreakRF(r, sp.RF, false)
@@ -1023,15 +1028,17 @@ func flabParseInitial(b []byte) (pn uint64, payload []byte, pktLen int, bad stri
 // ---------------------------------------------------------------- the lab
 
 type flabDgram struct {
-	ord    int
-	pn     int64
-	ranges [][2]int
+	ord       int
+	pn        int64
+	ranges    [][2]int
+	eliciting bool
 }
 
 type flabEvt struct {
 	at     time.Time
 	seq    int
 	isAck  bool
+	hrr    bool
 	dg     *flabDgram
 	ranges []wire.AckRange
 	delay  time.Duration
@@ -1043,8 +1050,9 @@ type flabLab struct {
 	sc  *flabScenario
 	res *KResult
 	tag string
-	ch  []byte
+	ch  []byte // the Initial CRYPTO stream as written by the TLS stack so far
 	L   int
+	ch2 []byte // second ClientHello, written when the peer's HelloRetryRequest arrives
 
 	str  *initialCryptoStream
 	sph  ackhandler.SentPacketHandler
@@ -1070,6 +1078,7 @@ type flabLab struct {
 	progressed bool // an ACK or a timer has been processed: later packets are not the first flight
 	drainedChk bool
 	usedNeg    bool
+	hrrSent    bool
 	sawLoss    bool
 	shape      strings.Builder
 }
@@ -1081,7 +1090,7 @@ func (l *flabLab) fail(sig, format string, a ...any) {
 
 func (l *flabLab) phase() string {
 	if l.progressed {
-		return "retransmission phase"
+		return "after the first ACK or timer"
 	}
 	return "first flight"
 }
@@ -1110,6 +1119,14 @@ func flabRun(t *testing.T, ksc KScenario, res *KResult) {
 	l.tag += ", config " + sc.Class
 	l.ch = flabBuildCH(&sc.CH)
 	l.L = len(l.ch)
+	if sc.CH.Len2 > 0 && l.L > 0 {
+		c2 := sc.CH
+		c2.Seed, c2.Len = KMix(sc.CH.Seed, 2), sc.CH.Len2
+		if c2.Len < 120 {
+			c2.Raw = true
+		}
+		l.ch2 = flabBuildCH(&c2)
+	}
 	l.emitted = make([]bool, l.L)
 	l.have = make([]bool, l.L)
 	res.Probe("mode/" + sc.Mode)
@@ -1525,6 +1542,7 @@ func (l *flabLab) checkDatagram(data []byte, what string) *flabDgram {
 		l.fail("independent frame reader and wire frame parser disagree", "%s: pn %d: own found %d frames, real %d", what, pn, k, len(real))
 		return nil
 	}
+	dg.eliciting = nCrypto+nPing > 0
 	if nPing > 0 {
 		res.Probe("ping-frame-sent")
 	}
@@ -1684,7 +1702,7 @@ func (l *flabLab) nothingToSend() {
 				"%d of %d bytes emitted in %d datagrams; first missing offset %d", l.nEmitted, l.L, l.nDgrams, first)
 			return
 		}
-		if l.L > 0 {
+		if l.L > 0 && !l.hrrSent {
 			l.res.Probe(fmt.Sprintf("first-flight-datagrams/%d", min(l.nDgrams, 6)))
 			if l.usedNeg {
 				l.res.Probe("negative-range-laid-out")
@@ -1707,11 +1725,20 @@ func (l *flabLab) peerReceive(ev flabEvt) {
 			}
 		}
 	}
+	hrr := false
 	if l.nHave == l.L {
-		l.done = true
+		if l.ch2 != nil {
+			if !l.hrrSent {
+				// the peer has the whole first ClientHello: it answers with a HelloRetryRequest
+				// (that answer is never lost here, it only takes its time)
+				l.hrrSent, hrr = true, true
+			}
+		} else {
+			l.done = true
+		}
 	}
-	if ev.noAck {
-		return
+	if (ev.noAck || !dg.eliciting) && !hrr {
+		return // a lost ACK; or a packet that does not elicit one
 	}
 	pns := make([]int64, 0, len(l.peerPNs))
 	for pn := range l.peerPNs {
@@ -1727,7 +1754,7 @@ func (l *flabLab) peerReceive(ev flabEvt) {
 			ranges = append(ranges, wire.AckRange{Smallest: p, Largest: p})
 		}
 	}
-	l.push(flabEvt{at: time.Now().Add(ev.ackDly + 10*time.Millisecond), isAck: true, ranges: ranges, delay: ev.ackDly})
+	l.push(flabEvt{at: time.Now().Add(ev.ackDly + 10*time.Millisecond), isAck: true, hrr: hrr, ranges: ranges, delay: ev.ackDly})
 }
 
 func (l *flabLab) clientReceiveAck(ev flabEvt) {
@@ -1741,11 +1768,26 @@ func (l *flabLab) clientReceiveAck(ev flabEvt) {
 	}
 	l.shape.WriteString("a")
 	l.res.Logf("  client received ACK %v", ev.ranges)
-	if l.sc.PeerPing {
+	if l.sc.PeerPing || ev.hrr {
 		l.acks.pending = true
 		l.acks.largest = protocol.PacketNumber(l.peerPkts)
 	}
 	l.peerPkts++
+	if ev.hrr {
+		// the TLS stack answers the HelloRetryRequest with a second ClientHello on the same stream
+		if _, err := l.str.Write(l.ch2); err != nil {
+			l.fail("lab: the crypto stream rejected the second ClientHello", "%v", err)
+			return
+		}
+		l.ch = append(l.ch, l.ch2...)
+		l.L = len(l.ch)
+		l.emitted = append(l.emitted, make([]bool, len(l.ch2))...)
+		l.have = append(l.have, make([]bool, len(l.ch2))...)
+		l.ch2 = nil
+		l.drainedChk = false
+		l.res.Probe("second-clienthello-after-hrr")
+		l.shape.WriteString("H")
+	}
 }
 
 func (l *flabLab) run() {
@@ -1764,7 +1806,18 @@ func (l *flabLab) run() {
 		l.fail("lab: nothing sent and nothing reported", "L=%d", l.L)
 		return
 	}
-	cleanBound := 60
+	// liveness bound: datagrams sent after the last network fault. Small CryptoLength plans and
+	// small QUICRandomFrames.Length values legitimately need many datagrams.
+	minSlice := l.sc.MaxSize - l.sc.flabHdrMax() - 16
+	for _, p := range l.sc.Spec.Plans {
+		if p.CL > 0 && p.CL < minSlice {
+			minSlice = p.CL
+		}
+	}
+	if l.sc.Spec.Kind == "rf" && l.sc.Spec.RF.Length > 40 && int(l.sc.Spec.RF.Length)-30 < minSlice {
+		minSlice = int(l.sc.Spec.RF.Length) - 30
+	}
+	cleanBound := 60 + 3*((l.L+len(l.ch2))/max(minSlice, 1)+1)
 	lastDgrams, lastEvents := -1, -1
 	for iter := 0; iter < 4000 && !l.ended && !l.done; iter++ {
 		// earliest thing to wait for
